@@ -114,6 +114,13 @@ def _unconstrain_node(node: Node) -> None:
             node.kwargs = dict(node.kwargs, constraint=None)
 
 
+def _supported_kwargs(node: Node, target_fn: Callable[..., Any]) -> Dict[str, Any]:
+    # torch.nn modules pass private arguments to torch.nn.functional (e.g. nn.Softmax
+    # passes `_stacklevel`, which only steers a warning) that unit-scaled functions lack
+    params = signature(target_fn).parameters
+    return {k: v for k, v in node.kwargs.items() if not k.startswith("_") or k in params}
+
+
 def unit_scaling_backend(
     replacement_map: Dict[Callable[..., Any], Callable[..., Any]] = dict()
 ) -> Backend:
@@ -133,7 +140,8 @@ def unit_scaling_backend(
                 elif node.target in U.torch_map:
                     target_fn = U.torch_map[node.target]
                     logger.info("unit scaling function: %s", node)
-                    replace_node_with_function(graph, node, target_fn)
+                    kwargs = _supported_kwargs(node, target_fn)
+                    replace_node_with_function(graph, node, target_fn, kwargs=kwargs)
 
         # Add metadata denoting the dependencies of every node in the graph
         _add_dependency_meta(graph)
